@@ -29,17 +29,14 @@ func zzOptEx() *any {
 	}
 }
 
-// zzEmitStruct emits, with the repository's real code (schemaGenerator.generateUnmarshaler,
-// the formatters, the emitter, gofmt), a complete file declaring
-// `type T struct { X <fieldType> }` with the unmarshalers generated for the validators.
-func zzEmitStruct(fieldType codegen.Type, required bool, imports []string, validators []validator, extraImports bool) string {
-	tags := `json:"x,omitempty" yaml:"x,omitempty" mapstructure:"x,omitempty"`
-	if required {
-		tags = `json:"x" yaml:"x" mapstructure:"x"`
-	}
-	st := &codegen.StructType{Fields: []codegen.StructField{{
-		Name: "X", Type: fieldType, Tags: tags, JSONName: "x", SchemaType: &schemas.Type{},
-	}}}
+// zzEmit emits, with the repository's real code (schemaGenerator.generateUnmarshaler, the
+// formatters, the emitter, gofmt), a complete file declaring `type T <st>` with the
+// unmarshalers generated for the validators.
+func zzEmit(st *codegen.StructType, validators []validator, extraImports bool) string {
+	return zzEmitExtra(st, validators, extraImports, nil)
+}
+
+func zzEmitExtra(st *codegen.StructType, validators []validator, extraImports bool, imports []string) string {
 	decl := codegen.TypeDecl{Name: "T", Type: st, SchemaType: &schemas.Type{}}
 	g, err := New(Config{ExtraImports: extraImports, DefaultPackageName: "example.com/gen", DefaultOutputName: "t.go",
 		Warner: func(string) {}, Tags: []string{"json", "yaml", "mapstructure"}})
@@ -64,6 +61,48 @@ func zzEmitStruct(fieldType codegen.Type, required bool, imports []string, valid
 	}
 	zzvrt.Unreachable("no source for t.go")
 	return ""
+}
+
+func zzField(name, jsonName string, t codegen.Type, required bool) codegen.StructField {
+	tags := `json:"` + jsonName + `,omitempty" yaml:"` + jsonName + `,omitempty" mapstructure:"` + jsonName + `,omitempty"`
+	if required {
+		tags = `json:"` + jsonName + `" yaml:"` + jsonName + `" mapstructure:"` + jsonName + `"`
+	}
+	return codegen.StructField{Name: name, Type: t, Tags: tags, JSONName: jsonName, SchemaType: &schemas.Type{}}
+}
+
+// zzEmitStruct: `type T struct { X <fieldType> }`.
+func zzEmitStruct(fieldType codegen.Type, required bool, imports []string, validators []validator, extraImports bool) string {
+	st := &codegen.StructType{Fields: []codegen.StructField{zzField("X", "x", fieldType, required)}}
+	return zzEmit(st, validators, extraImports)
+}
+
+// zzMaterialise runs stage 2 on emitted text and reports compile problems under id.
+func zzMaterialise(id, src string) (int, bool) {
+	zzvrt.Emit("t.go", src)
+	h := zzvrt.Stage2(src)
+	if !zzvrt.S2OK(h) {
+		zzvrt.Note(zzvrt.S2Errors(h))
+		zzvrt.Check(id+".emitted-code-compiles", false)
+		return h, false
+	}
+	zzvrt.Check(id+".literals-fit", zzvrt.S2Fits(h))
+	return h, true
+}
+
+// zzRun decodes doc d with (*T).Unmarshal<format>; ok=false if it panicked (reported).
+func zzRun(id string, h int, format string, d int) (r int, accepted bool, ok bool) {
+	r = zzvrt.Unmarshal(h, "T", format, d)
+	st := zzvrt.RStatus(r)
+	if st == 2 {
+		zzvrt.Note(zzvrt.RMsg(r))
+		zzvrt.Check(id+".no-panic", false)
+		return r, false, false
+	}
+	if st != 0 {
+		zzvrt.Check(id+".receiver-unchanged-on-error", zzvrt.RUnchanged(r))
+	}
+	return r, st == 0, true
 }
 
 // zzTypeCorrectObject assumes a well-formed document whose root is an object.
